@@ -32,6 +32,11 @@ pub struct SeqCfg {
     pub check_usage: bool,
     /// initial clock value (stores at a non-zero time)
     pub start_time: u64,
+    /// opaque values to cycle through by alphabet index (empty: one distinct opaque per command)
+    pub opaques: Vec<u32>,
+    /// alphabet indices i and i + opaque_mod denote the loud/quiet twins of one command and use
+    /// the same opaque (0 = off)
+    pub opaque_mod: usize,
 }
 
 #[derive(Clone, Debug, PartialEq, Eq, Hash, PartialOrd, Ord)]
@@ -95,6 +100,7 @@ impl<'a> Runner<'a> {
         };
         let mut model = Model::new(cfg.evict, mem_limit);
         model.now = cfg.start_time;
+        model.item_limit = Some(cfg.sut.item_limit);
         Runner { cfg, world, conn, model }
     }
 
@@ -142,7 +148,8 @@ impl<'a> Runner<'a> {
             },
             None => 0,
         };
-        let opaque = opaque_for(idx);
+        let oi = if self.cfg.opaque_mod > 0 { idx % self.cfg.opaque_mod } else { idx };
+        let opaque = if self.cfg.opaques.is_empty() { opaque_for(oi) } else { self.cfg.opaques[oi % self.cfg.opaques.len()] };
         let req = cmd.to_req(cas, opaque).unwrap();
         let bytes = req.bytes();
         let before = self.world.dump();
